@@ -55,7 +55,4 @@ var (
 )
 
 func init() {
-	Registry["C18"] = func(r *core.Run) { panicScope(r, entriesC18...) }
-	Registry["C05"] = func(r *core.Run) { panicScope(r, entriesC05...) }
-	Registry["C16"] = func(r *core.Run) { panicScope(r, entriesC16...) }
 }
